@@ -264,7 +264,22 @@ def run(ck):
     ck.notes.append("exit window (F10) confirmed on the engine in %d run(s) with the window widened by injected delays; "
                     "spawn window stale read observed in %d run(s)" % (confirmed["exit-window"], confirmed["spawn-window"]))
     if not proved and not ck.violations:
-        ck.unproved()
+        sp = scan_sources()[5]
+        ordered = 0 < sp["guard"] < sp["copy"] < sp["start"] < sp["register"] < sp["release"]
+        if not ordered:
+            # the model's failing history for an unprotected thread creation (theorems stated on cfg_pre_spawn_fix)
+            ck.violation("proof obligation no longer checks: gen_config_is_fixed - spawn_native_thread does not hold the heap guard from the "
+                         "copy of the spawner's state until the registration of the new thread (lines %s); no failing run found on the engine, "
+                         "the model's failing history is in the replay" % json.dumps(sp),
+                         {"broken": ck.proof_failures, "spawn_steps": sp,
+                          "model_history": {"config": "cfg_pre_spawn_fix", "scripts": "spawn_progs = [[ASpawn 2; ASpawn 1; APrim]; [ACompute; ACompute; ACompute]; [AUpdate]]",
+                                            "schedule": "spawn_overlap_sched = [0;0;0;0;0;0;0] ++ repeat 2 12",
+                                            "theorems": ["C15_unregistered_runner_before_fix", "C15_global_visible_refuted_spawn_window"],
+                                            "meaning": "thread 2's stop-the-world section runs while thread 1 has been started and is not registered: "
+                                                       "the section neither stops it nor hands it the new global table"}},
+                         no_input=True, tag="unproved")
+        else:
+            ck.unproved()
 
 
 def replay(ck, path):
